@@ -47,7 +47,8 @@ impl<K> IndexState<K> {
         }
 
         let unique_blobs = unique.len() as u64;
-        let total_bytes = unique.values().copied().sum::<u64>();
+        // sizes come from the snapshot / log: a damaged file must not overflow the statistics
+        let total_bytes = unique.values().copied().fold(0u64, u64::saturating_add);
 
         self.stats.cas.unique_blobs = unique_blobs;
         self.stats.cas.total_bytes = total_bytes;
@@ -101,7 +102,7 @@ where
                         // New key → bump refcount of the new hash.
                         if self.increment_ref(hash) {
                             self.stats.cas.unique_blobs += 1;
-                            self.stats.cas.total_bytes += *size;
+                            self.stats.cas.total_bytes = self.stats.cas.total_bytes.saturating_add(*size);
                         }
                     }
                     Some(prev) if prev.blob_hash != *hash => {
@@ -110,13 +111,14 @@ where
                         if let Some(h) = self.decrement_ref(&prev.blob_hash)? {
                             unreferenced_hashes.push(h);
                             self.stats.cas.unique_blobs -= 1;
-                            self.stats.cas.total_bytes -= prev.blob_size;
+                            self.stats.cas.total_bytes =
+                                self.stats.cas.total_bytes.saturating_sub(prev.blob_size);
                         }
 
                         // 2) increment new
                         if self.increment_ref(hash) {
                             self.stats.cas.unique_blobs += 1;
-                            self.stats.cas.total_bytes += *size;
+                            self.stats.cas.total_bytes = self.stats.cas.total_bytes.saturating_add(*size);
                         }
                     }
                     Some(prev) => {
@@ -140,7 +142,8 @@ where
                     {
                         unreferenced_hashes.push(h);
                         self.stats.cas.unique_blobs -= 1;
-                        self.stats.cas.total_bytes -= item.blob_size;
+                        self.stats.cas.total_bytes =
+                            self.stats.cas.total_bytes.saturating_sub(item.blob_size);
                     }
                 }
             }
